@@ -1135,7 +1135,7 @@ def main(tier, replay=None):
                 chk.fail_input(c.site, klass, d, outs[i].split(" CRASH ")[0], "killed by signal " + sig,
                                "aliased call (%s): the process was killed by signal %s (the call on distinct objects returned) :: %s" % (pat, sig, outs[i]))
             else:
-                chk.fail_input(c.site, "distinct objects", d, "a result", "killed by signal " + sig,
+                chk.fail_input(c.site + " (distinct objects)", "distinct objects", d, "a result", "killed by signal " + sig,
                                "distinct objects: the process was killed by signal %s :: %s" % (sig, outs[i]))
             continue
         if po is None:
@@ -1172,7 +1172,8 @@ def main(tier, replay=None):
                     bad = (klass, "aliased call (%s): operand %d was modified (%s -> %s)" % (pat, k, avals[k], Av[k]), avals[k], Av[k])
                     break
         if bad is not None:
-            chk.fail_input(c.site, bad[0], d, bad[2], bad[3], bad[1] + " :: " + outs[i])
+            # a failure of the call on distinct objects is a different site (never covered by an alias finding)
+            chk.fail_input(c.site + (" (distinct objects)" if bad[0] == "distinct objects" else ""), bad[0], d, bad[2], bad[3], bad[1] + " :: " + outs[i])
         # (c) correspondence with the extracted model (not reported again for a case that already failed)
         if mout is not None and i in mout:
             ncorr += 1
